@@ -29,6 +29,8 @@ func errClass(err error) string {
 		return "invalidTarget"
 	case "route: no target match":
 		return "noMatch"
+	case "route: invalid weight":
+		return "invalidWeight"
 	}
 	s := err.Error()
 	switch {
@@ -94,6 +96,13 @@ func init() {
 				n = 1 + r.Intn(40)
 			}
 			ds := genScript(r, &c05Small, n)
+			if r.Chance(1, 15) {
+				// a weight strconv.ParseFloat accepts but no table may hold (validWeight): add and weight refuse it,
+				// del never looks at it
+				k := r.Intn(len(ds))
+				ds[k].WText = r.Pick(nonFinite)
+				ds[k].Fill()
+			}
 			return scriptIn{Defs: ds, Flip: r.U64() % 1000000, Oracle: rt.Oracle(ds)}
 		},
 		Run: func(raw json.RawMessage) (interface{}, error) {
